@@ -4,7 +4,7 @@
    Print Assumptions under each.  What is NOT proved here -- that no command stream crashes the real
    process -- is explored under sanitizers by tools/props/c05.py and labelled as exploration. *)
 From Coq Require Import List NArith ZArith.
-From NV Require Import Bytes GenConsts GenCap GenExCmds CapDefs CapProps CapDefs2 CapProps2.
+From NV Require Import Bytes GenConsts GenCap GenExCmds CapDefs CapProps CapDefs2 CapProps2 CapDefs3 CapProps3.
 Import ListNotations.
 
 (* ex_loc, ex_cmd and ex_arg, each writing into a fresh buffer of EXLEN bytes, started at any
@@ -240,4 +240,56 @@ Proof. vm_compute. reflexivity. Qed.
 Example C05_clamp_needed : ex_pathexpand_gen (Some (repeat 97%N 2000)) None false false [37%N] = OobWr.
 Proof. vm_compute. reflexivity. Qed.
 Example C05_findroom_bound_needed : b_run_gen 0 b_init (repeat BOpen 17) = OobWr.
+Proof. vm_compute. reflexivity. Qed.
+
+(* ======================================================================================== *)
+(* third part (CapDefs3.v): the stack buffers of the insert-mode helpers                      *)
+
+(* (7) vi.c vi_help (^A in insert mode): for EVERY line typed so far -- any string of non-NUL bytes, so
+   every word length and every mix of one- to four-byte characters, valid UTF-8 or not -- the scan for
+   the last word ends inside the line (no read past the terminator, the loop terminates), end is never
+   before beg, and the word handed to tag_find, cut by the code's byte guard, was copied into
+   char tag[TAGSZ] together with its terminator without a store outside it: it is a segment of the
+   line of fewer than TAGSZ bytes *)
+Theorem C05_vi_help_tag_fits : forall ln, nonul ln ->
+  exists r, vi_help_tag ln = Ok r /\
+    match r with
+    | None => True
+    | Some t => (Z.of_nat (length t) < TAGSZ)%Z /\
+                exists b, (b + length t <= length ln)%nat /\ t = firstn (length t) (skipn b ln)
+    end.
+Proof. exact vi_help_tag_fits. Qed.
+Print Assumptions C05_vi_help_tag_fits.
+
+(* (8) led.c led_input / led_line: for every number of leading blanks of the prefix and every sequence of
+   ^T, ^D and finished lines (any number of leading blanks typed, prefix empty or not, ai option on or
+   off), every store into char ai[AISZ] -- the fill loop, the terminators, the memcpy of the carried-over
+   indentation -- is inside it and strlen(ai) stays below AISZ *)
+Theorem C05_ai_bounded : forall k ops, Forall aiop_ok ops ->
+  exists n len, ai_init k = Ok n /\ ai_run n ops = Ok len /\ (0 <= len)%Z /\ (len < AISZ)%Z.
+Proof. exact ai_bounded. Qed.
+Print Assumptions C05_ai_bounded.
+
+(* non-vacuity and teeth of the third part: "ab \xc3\xa9x_1 " hands the word "\xc3\xa9x_1" to tag_find;
+   without the guard a word of TAGSZ bytes overflows tag[]; with a guard that counts characters while the
+   copy counts bytes a word of TAGSZ two-byte characters does; a ^T bounded by the size of ai[] instead of
+   ai_max stores the terminator outside *)
+Example C05_nonvacuous3 :
+  nonul [97; 98; 32; 195; 169; 120; 95; 49; 32]%N /\
+  vi_help_tag [97; 98; 32; 195; 169; 120; 95; 49; 32]%N = Ok (Some [195; 169; 120; 95; 49]%N) /\
+  vi_help_tag [32; 43; 32]%N = Ok None /\
+  (exists t, vi_help_tag (repeat 97%N (Z.to_nat (3 * TAGSZ))) = Ok (Some t) /\ Z.of_nat (length t) = (TAGSZ - 1)%Z) /\
+  Forall aiop_ok [AiTab; AiLine 200 true true; AiTab; AiDel; AiLine 3 false false]%Z.
+Proof.
+  split; [repeat constructor|]. split; [vm_compute; reflexivity|]. split; [vm_compute; reflexivity|].
+  split; [eexists; split; vm_compute; reflexivity|]. repeat constructor; cbn; discriminate.
+Qed.
+Example C05_tag_guard_needed : vi_help_tag_gen CutNone (repeat 97%N (Z.to_nat TAGSZ)) = OobWr.
+Proof. vm_compute. reflexivity. Qed.
+Example C05_tag_guard_must_count_bytes :
+  vi_help_tag_gen CutChars (concat (repeat [195; 169]%N (Z.to_nat TAGSZ))) = OobWr /\
+  (exists t, vi_help_tag_gen CutBytes (concat (repeat [195; 169]%N (Z.to_nat TAGSZ))) = Ok (Some t)).
+Proof. split; [vm_compute; reflexivity|eexists; vm_compute; reflexivity]. Qed.
+Example C05_ai_max_needed :
+  (do n <- ai_init (2 * AISZ); do n' <- ai_step_loose n AiTab; ai_step_loose n' AiTab) = OobWr.
 Proof. vm_compute. reflexivity. Qed.
